@@ -14,6 +14,10 @@ FAMILY = {
 # ImageBatch.pyramid builds its finest-level grids first and resizes/samples the data onto them: the pairing there is
 # by construction (data is sampled *on* the computed grid), not an op family.
 PAIR_EXEMPT = {"pyramid"}
+# options whose value means the same for the tensor function and the Grid method (scalars / flags). Per-axis tuples (sizes,
+# margins, kernel sizes) follow different axis-order conventions on the two sides; their agreement is decided semantically
+# by the lock-step evaluation (T13), not by comparing expressions.
+ORDER_FREE = {"align_corners", "dims", "levels", "min_size", "ceil_mode"}
 
 
 def run(ctx: Ctx) -> None:
@@ -23,8 +27,7 @@ def run(ctx: Ctx) -> None:
     ff = prog.cls("deepali.data.flow", "FlowFields")
     f1 = prog.cls("deepali.data.flow", "FlowField")
     ctx.rule("E7.pair", "in each ImageBatch spatial method the tensor operation (core.image) and the Grid operation receive the same "
-                        "expression for every option name they share (align_corners, dims, min_size, levels, margin, num, size, "
-                        "kernel_size, stride, padding, ceil_mode, start)")
+                        "value (same source names) for every order-free option they share (align_corners, dims, min_size, levels, ceil_mode)")
     ctx.rule("E7.pair.family", "the tensor operation is paired with the matching Grid operation (resize<->resize, crop<->crop, pad<->pad, ...)")
     n_pairs = 0
     for name, m in ib.methods.items():
@@ -34,7 +37,7 @@ def run(ctx: Ctx) -> None:
             continue
         a, b = S.pair_calls(ctx, m, lambda g: g.module.name == "deepali.core.image" and g.cls is None,
                             lambda g: g.cls is not None and g.cls.name == "Grid" and g.name not in ("spacing", "size", "align_corners", "coords"),
-                            "E7.pair", ignore={"data", "mode", "value"}, family=FAMILY)
+                            "E7.pair", ignore={"data", "mode", "value"}, family=FAMILY, only=ORDER_FREE)
         if a and b:
             n_pairs += 1
     ctx.require(n_pairs >= 11, f"only {n_pairs} ImageBatch methods pair a tensor op with a Grid op (expected >= 11)")
@@ -42,3 +45,9 @@ def run(ctx: Ctx) -> None:
     S.delegate_forward(ctx, methods_of(img) + methods_of(f1))
     ctx.floor("E7.delegate-forward", 60)
     e4(ctx, ["deepali.core.image", "deepali.data.image", "deepali.data.flow"])
+    from ..tables import t13_lockstep
+    t13_lockstep.run_lockstep(ctx)
+    ctx.floor("T13.index-only", 40)
+    ctx.floor("T13.ramp", 6)
+    ctx.floor("T13.interp-flag", 20)
+    ctx.floor("T13.sample", 12)
